@@ -103,6 +103,20 @@ class GenericEnv(AbstractEnv):
         raise NotImplementedError
 
 
+class GenericInnerEnv(GenericEnv):
+    """Any environment-LIKE object a wrapper may sit on (possibly itself a wrapper stack): as GenericEnv, but `unwrapped` is a DIFFERENT environment with different spaces
+    and its own collaborators (tag 'decoy'), so that code reaching through `self.unwrapped` where `self.env` is meant becomes visible."""
+    decoy: GenericEnv = eqx.field(static=True)
+
+    def __init__(self, action_space=None, tag="env", masked=False, obs_dim=OBS_DIM, observation_space=None):
+        super().__init__(action_space, tag, masked, obs_dim, observation_space)
+        self.decoy = GenericEnv(Box(-jnp.ones((5,)), jnp.ones((5,))), tag="decoy", observation_space=Box(-jnp.inf, jnp.inf, (7,)))
+
+    @property
+    def unwrapped(self):
+        return self.decoy
+
+
 class GPState(AbstractPolicyState):
     h: jax.Array
 
